@@ -20,6 +20,22 @@ FUZZ = {"thorough": {"runs": 15000, "seed_inputs": 16, "max_len": 4096,
 
 
 def check_case(case, ctx):
+    if case.get("ops"):
+        # the pair returned by match(expand=True) / increase_max_lattice_width has the same meaning: same predicate after every call
+        box = {}
+
+        def after(matcher, op, states, idx, cur):
+            if states is not None or idx is not None:
+                box["where"] = audit.audit_alignment(matcher, case["trace"][:cur], states, idx, case.get("unique", False))
+                box["res"] = (states, idx)
+
+        matcher, res, cur, applied = common.apply_history(case, after=after)
+        lb = matcher.lattice_best or []
+        classes = ["where:" + box.get("where", "?"), "family:" + case["config"]["family"], "history:%d" % min(len(applied), 3)]
+        if any(m.obs_ne for m in lb):
+            classes.append("ne-in-path")
+        ctx.record(case, bool(res and res[0]), classes, base.canon(matcher, res[0], res[1]) if res else None)
+        return
     matcher, states, idx = common.run_match(case)
     where = audit.audit_alignment(matcher, case["trace"], states, idx, case.get("unique", False))
     cfg = case["config"]
@@ -52,5 +68,10 @@ def strategy(tier):
     def _s(draw):
         case = draw(common.mixed_case(tier, trace_kw={"kinds": ["walk", "outlier", "outlier", "sparse", "exact", "repeat", "random"]}))
         case["unique"] = draw(st.booleans())
+        case = draw(common.maybe_decoy(case))
+        if draw(st.integers(0, 3)) == 0:
+            case["ops"] = draw(common.history_ops(len(case["trace"])))
+            if case["config"].get("max_lattice_width") is None:
+                case["config"]["max_lattice_width"] = draw(st.sampled_from([1, 1, 2, 3]))
         return case
     return _s()
